@@ -269,6 +269,19 @@ func (b *batch) genPriv(priv [32]byte, tweaks []byte) {
 		var pub, repr [32]byte
 		p := priv
 		ok := ntor.VerifScalarBaseMult(&pub, &repr, &p, tw)
+		if p != priv {
+			// the private key is an input: the result is a function of (key, tweak),
+			// so generation may not alter the caller's key on the way
+			c.Violationf("gen/private-key-modified-by-the-call", map[string]any{"priv": hx(priv[:]), "after": hx(p[:]), "tweak": tw}, "priv %x: generation with tweak %#02x left %x in the caller's private-key array", priv, tw, p)
+		}
+		if tw == tweaks[0] {
+			// the same call again on the array the first call was given
+			var pub2, repr2 [32]byte
+			if ok2 := ntor.VerifScalarBaseMult(&pub2, &repr2, &p, tw); ok2 != ok || pub2 != pub || repr2 != repr {
+				c.Violationf("gen/not-repeatable-on-the-same-key-array", map[string]any{"priv": hx(priv[:]), "tweak": tw}, "priv %x tweak %#02x: a second call on the same key array gives ok=%v pub=%x repr=%x, the first gave ok=%v pub=%x repr=%x", priv, tw, ok2, pub2, repr2, ok, pub, repr)
+			}
+			r.Count("gen_repeated_on_same_array", 1)
+		}
 		r.Count("evaluations", 1)
 		r.Count("gen_calls", 1)
 		r.Distinct("tweaks", fmt.Sprintf("%02x", tw))
